@@ -8,13 +8,15 @@ from harness import fix, tlc
 
 def main():
     r = tlc.run_tlc("BigFixTest", "BigFixTest.cfg")
+    r2 = tlc.run_tlc("GeodesicOracleTest", "GeodesicOracleTest.cfg", workers=1, timeout=600)      # ASSUMEs: raises if one is false
     rnd = random.Random(1)
     for _ in range(2000):
         x = rnd.uniform(-1e8, 1e8) * rnd.choice([1, 1e-3, 1e-9, 1e-15])
         t = fix.enc(x)
         assert abs(fix.dec(t) - Fraction(x)) <= Fraction(1, 2 * fix.SCALE), x
         assert all(0 <= l < 10000 for l in t[1:]) and (len(t) == 1 or t[-1] != 0)
-    print("setup ok: BigFix self-test passed (%d states), fix.enc exact on 2000 samples" % r.distinct)
+    print("setup ok: BigFix self-test passed (%d states), GeodesicOracle agrees with 12 lines solved with 40-digit quadrature "
+          "(%.1f s), fix.enc exact on 2000 samples" % (r.distinct, r2.wall))
     return 0
 
 
